@@ -79,21 +79,15 @@ extern "C" void h_scram_exchange()
     vp_assume(vpNoByte(N, ',') && vpNoByte(S, ',') && vpNoByte(I, ','));
     QByteArray sf("r="); sf.append(N); sf.append(",s="); sf.append(S); sf.append(",i="); sf.append(I);
     hintPieces(sf, 2 + ln, 2 + ls, 2 + li);
-    auto r1 = k.c->respond(sf);
-    vp_orc_seal(6);
-    // what the message means
+    // what the message means (the reference is computed first: the oracle is order-independent)
     bool okI = false; int iters = I.toInt(&okI);
     QByteArray salt = QByteArray::fromBase64(S);
     bool expectAccept = N.startsWith(k.cnonce) && !salt.isEmpty() && okI && iters >= 1;
-    vp_assert(r1.has_value() == expectAccept, "C06 SCRAM server-first accepted iff nonce extends the client nonce, salt is non-empty and the iteration count is >= 1");
-    if (!r1 || !expectAccept) {
-        if (!r1) vp_assert(vp_orc_count() == 6 && vp_orc_kind(0) == 0, "C06 SCRAM: nothing is derived from the password for a refused server-first");
-        return;
-    }
     auto alg = k.mech.qtAlgorithm();
     QByteArray cfb = r0->mid(3);                                   // client-first-message-bare as sent
     QByteArray cfwp("c=biws,r="); cfwp.append(N);                  // client-final-message-without-proof
     QByteArray am(cfb); am.append(','); am.append(sf); am.append(','); am.append(cfwp);
+    vp_orc_reference(true);
     QByteArray sp = QPasswordDigestor::deriveKeyPbkdf2(alg, k.password.toUtf8(), salt, iters, quint64(QCryptographicHash::hashLength(alg)));
     QByteArray ck = hmac(alg, sp, QByteArray("Client Key"));
     QByteArray sk = QCryptographicHash::hash(ck, alg);
@@ -101,8 +95,15 @@ extern "C" void h_scram_exchange()
     QByteArray proof(cs);
     for (int i = 0; i < proof.size(); i++) proof[i] = char(ck.at(i) ^ cs.at(i));
     QByteArray expFinal(cfwp); expFinal.append(",p="); expFinal.append(proof.toBase64());
-    vp_assert(*r1 == expFinal, "C06 SCRAM client-final = 'c=biws,r=' nonce ',p=' base64(ClientKey XOR HMAC(H(ClientKey), AuthMessage)) with RFC 5802 key derivation");
     QByteArray ssig = hmac(alg, hmac(alg, sp, QByteArray("Server Key")), am);
+    vp_orc_reference(false);
+    unsigned nref = vp_orc_count();
+
+    auto r1 = k.c->respond(sf);
+    vp_assert(r1.has_value() == expectAccept, "C06 SCRAM server-first accepted iff nonce extends the client nonce, salt is non-empty and the iteration count is >= 1");
+    if (!r1) { vp_assert(vp_orc_count() == nref, "C06 SCRAM: nothing is derived from the password for a refused server-first"); return; }
+    if (!expectAccept) return;
+    vp_assert(*r1 == expFinal, "C06 SCRAM client-final = 'c=biws,r=' nonce ',p=' base64(ClientKey XOR HMAC(H(ClientKey), AuthMessage)) with RFC 5802 key derivation");
     vp_assert(k.c->m_serverSignature == ssig, "C06 SCRAM expected ServerSignature = HMAC(HMAC(SaltedPassword,'Server Key'), AuthMessage)");
     vp_assert(k.c->m_step == 2, "C06 SCRAM step 2 after client-final");
     // server-final
@@ -136,7 +137,7 @@ extern "C" void h_scram_refuse_attrs()
     if (r1) {
         QByteArray pre("c=biws,r="); pre.append(k.cnonce);
         vp_assert(r1->startsWith(pre), "C06 SCRAM: an accepted server-first carries a nonce that extends the client nonce");
-        vp_assert(vp_orc_count() == 5, "C06 SCRAM: PBKDF2, ClientKey, StoredKey, ClientSignature, ServerKey/ServerSignature are computed on acceptance");
+        vp_assert(vp_orc_count() == 6, "C06 SCRAM: PBKDF2, ClientKey, StoredKey, ClientSignature, ServerKey/ServerSignature are computed on acceptance");
         vp_assert(k.c->m_step == 2, "C06 SCRAM step advances to 2 on acceptance");
     }
 }
